@@ -60,6 +60,9 @@ def kit():
   return _K
 
 
+INVOCATION = [0]
+
+
 def is_small(value):
   return value < 100
 
@@ -77,6 +80,8 @@ def make_base():
   def x_body(test, p, a=0):
     test.measurements.m = 3
     test.measurements.n = 4
+    INVOCATION[0] += 1
+    test.measurements.dm[INVOCATION[0]] = 7          # one row per invocation, at a coordinate no other invocation uses
     test.state['seen'] = test.state.get('seen', 0) + 1
     test.logger.info('x runs a=%s state=%s', a, test.state['seen'])
     test.attach('att', b'x' * (a + 1))
@@ -91,7 +96,8 @@ def make_base():
 
   x = h.PhaseOptions(name='x-{a}', timeout_s=30)(x_body)
   x = h.measures(h.Measurement('m').in_range(0, 10).validate_on({R.B: v.in_range(0, 1)}),
-                 h.Measurement('n').with_validator(is_small))(x)       # (a validator without with_args)
+                 h.Measurement('n').with_validator(is_small),       # (a validator without with_args)
+                 h.Measurement('dm').with_dimensions('i'))(x)
   x = h.diagnose(K['diag1'])(x)
   x = h.plugs.plug(p=K['RealPlug'].placeholder)(x)
   y = h.PhaseOptions(name='y')(y_body)
@@ -116,7 +122,8 @@ def snap(o):
   if isinstance(o, measurements.Measurement):
     mv = o.measured_value
     return ('meas', o.name, tuple(str(x) for x in o.validators), tuple((str(c.result), str(c.validator)) for c in o.conditional_validators),
-            repr(o.dimensions), repr(o.units), o.docstring, o.outcome.name, o.marginal, bool(mv.is_value_set), o.set_time_millis)
+            repr(o.dimensions), repr(o.units), o.docstring, o.outcome.name, o.marginal, bool(mv.is_value_set), o.set_time_millis,
+            len(mv.value_dict) if hasattr(mv, 'value_dict') else None)
   if isinstance(o, pb.BranchSequence):
     return ('branch', o.name, repr(o.diag_condition), tuple(snap(n) for n in o.nodes))
   if isinstance(o, pc.Subtest):
@@ -273,8 +280,8 @@ def execute(t, with_b=False, cache=None, trigger=False):
     return ('no-record', type(res).__name__)
   rec = recs[0]
   return (rec.outcome.name,
-          tuple((p.name, p.outcome.name, tuple(sorted((k, m.outcome.name, repr(m.measured_value.value) if m.measured_value.is_value_set else None)
-                                                      for k, m in p.measurements.items())),
+          tuple((p.name, p.outcome.name, tuple(sorted((k, m.outcome.name, (('rows=%d' % len(m.measured_value.value)) if m.dimensions else repr(m.measured_value.value))
+                                       if m.measured_value.is_value_set else None) for k, m in p.measurements.items())),
                  tuple(sorted((k, a.sha1) for k, a in p.attachments.items())), tuple(r.name for r in p.diagnosis_results))
                 for p in rec.phases),
           tuple(r.message for r in rec.log_records if ' runs' in r.message),
